@@ -50,6 +50,8 @@ func randEdit(r *rand.Rand, docker bool) Op {
 		return Op{K: "edit", Edit: "rename", Side: side, Name: pick(r, all), To: pick(r, all)}
 	case n < 94:
 		return Op{K: "edit", Edit: "chmod", Side: side, Name: pick(r, files), Exec: r.Intn(2) == 0}
+	case n < 97:
+		return Op{K: "edit", Edit: "replace", Side: side, Name: pick(r, files), Content: pick(r, contents)}
 	default:
 		return Op{K: "edit", Edit: "link", Side: side, Name: pick(r, files), Content: pick(r, []string{"f", "k", "x"})}
 	}
@@ -234,6 +236,57 @@ func phantomExecutable(r *rand.Rand, mode int) *Script {
 	return s
 }
 
+// oneSideFails: both endpoints have transitions to apply and the Transition
+// call of one of them fails as a whole: what the other one reported must
+// still be recorded.
+func oneSideFails(r *rand.Rand, mode int) *Script {
+	s := &Script{Mode: mode}
+	s.Ops = []Op{write("both", "k", "k", false)}
+	if r.Intn(2) == 0 {
+		s.Ops = append(s.Ops, write("both", "f", "c0", false), cycle(""))
+	}
+	for i, n := 0, 1+r.Intn(3); i < n; i++ {
+		s.Ops = append(s.Ops, write("alpha", pick(r, []string{"f", "g", "d/x", "d/y"}), pick(r, contents), false))
+	}
+	for i, n := 0, 1+r.Intn(3); i < n; i++ {
+		s.Ops = append(s.Ops, write("beta", pick(r, []string{"e/x", "e/y", "d/z"}), pick(r, contents), false))
+	}
+	s.Ops = append(s.Ops, cycle(pick(r, []string{"failA", "failB"})))
+	if r.Intn(2) == 0 {
+		s.Ops = append(s.Ops, Op{K: "restart"})
+	}
+	s.Ops = append(s.Ops, cycle(""), cycle(""))
+	return s
+}
+
+// replacedInPlace: a synchronized file is replaced atomically on one root by
+// different content of the same size with the old modification time (new
+// inode), while the other root modifies the same file: a conflict, both
+// versions must stay.
+func replacedInPlace(r *rand.Rand, mode int) *Script {
+	s := &Script{Mode: mode}
+	name := pick(r, filePool)
+	side, other := "alpha", "beta"
+	if mode != 3 && mode != 4 && r.Intn(2) == 0 {
+		side, other = "beta", "alpha"
+	}
+	s.Ops = []Op{write("both", "k", "k", false), write(pick(r, []string{"alpha", "both"}), name, "c0", r.Intn(4) == 0), cycle(""), cycle("")}
+	if r.Intn(3) == 0 {
+		s.Ops = append(s.Ops, Op{K: pick(r, []string{"pause", "restart"})}, cycle(""))
+	}
+	s.Ops = append(s.Ops, Op{K: "edit", Edit: "replace", Side: side, Name: name, Content: "c1"})
+	switch r.Intn(3) {
+	case 0:
+		s.Ops = append(s.Ops, write(other, name, "c2", false))
+	case 1:
+		s.Ops = append(s.Ops, edit("remove", other, name))
+	default:
+		s.Ops = append(s.Ops, Op{K: "edit", Edit: "replace", Side: other, Name: name, Content: "c3"})
+	}
+	s.Ops = append(s.Ops, cycle(""), cycle(""))
+	return s
+}
+
 type named struct {
 	s      *Script
 	origin string
@@ -247,9 +300,11 @@ func plan(prop string, r *rand.Rand, nRandom, nDirected int) []named {
 	case "C01":
 		for i := 0; i < nDirected; i++ {
 			add(twinThenRevert(r, 1), "scripted")
+			add(replacedInPlace(r, 1), "scripted")
 			if i%2 == 0 {
 				add(partialDirectory(r, 1), "scripted")
 				add(cancelled(r, 1), "scripted")
+				add(oneSideFails(r, 1), "scripted")
 			}
 		}
 		for i := 0; i < nRandom; i++ {
@@ -267,6 +322,10 @@ func plan(prop string, r *rand.Rand, nRandom, nDirected int) []named {
 			add(twinThenRevert(r, randMode(r)), "scripted")
 			add(cancelled(r, randMode(r)), "scripted")
 			add(partialDirectory(r, randMode(r)), "scripted")
+			add(oneSideFails(r, 1+r.Intn(2)), "scripted")
+			if i%2 == 0 {
+				add(replacedInPlace(r, randMode(r)), "scripted")
+			}
 		}
 		for i := 0; i < nRandom; i++ {
 			add(genGeneral(r, randMode(r), 40, 25), "random")
